@@ -404,6 +404,48 @@ func suiteND(rn *runner, r *rng, tier string) {
 		h := *pj0
 		carry = &h
 	}
+	// trailing blanks after the line on which stage 1 closes an index buffer: the whole 64-byte blocks that remain are
+	// white space, the last structurals sit in the final partial block. Valid NDJSON for every count of short lines in
+	// front (so that the 1408th index falls on a closing bracket for some of them) and every length of the blank run;
+	// the oracle is the number of roots, known by construction
+	{
+		bad := 0
+		kLo, kHi, bStep := 455, 480, 7
+		if tier == "thorough" {
+			kLo, kHi, bStep = 440, 500, 1
+		}
+		for k := kLo; k <= kHi && bad < 3; k++ {
+			for bl := 50; bl <= 200 && bad < 3; bl += bStep {
+				for _, blank := range []string{" ", "\t", "\r"} {
+					for _, tail := range []string{"\n{}", "\n[1]\n{}", ""} {
+						text := "{\"p\":1}\n" + strings.Repeat("{}\n", k) + "{}" + strings.Repeat(blank, bl) + tail
+						want := k + 2 + strings.Count(tail, "\n")
+						pj, err := simdjson.ParseND([]byte(text), nil)
+						got := -1
+						if err == nil {
+							got = 0
+							it := pj.Iter()
+							for it.Advance() == simdjson.TypeRoot {
+								got++
+							}
+						}
+						rn.rep.Evaluations++
+						if got != want {
+							bad++
+							impl := fmt.Sprintf("%d roots", got)
+							if err != nil {
+								impl = "rejected: " + err.Error()
+							}
+							rn.disagree(disagreement{Kind: "spec", Ops: []string{"parse p 1 1 " + hx([]byte(text)), "owalk p"}, At: 0, Impl: impl,
+								Other: fmt.Sprintf("%d roots", want), Note: fmt.Sprintf("nd: %d short lines, then %d blanks (%q) before the end of the line", k+1, bl, blank)})
+						}
+					}
+				}
+			}
+		}
+		rn.rep.Distribution["trailing-blanks-at-buffer-boundary/sweep"]++
+		rn.seen["trailing-blanks-at-buffer-boundary/sweep"] = true
+	}
 	for i := 0; i < n; i++ {
 		cr := r.fork()
 		cfg := defaultCfg(cr)
